@@ -1,4 +1,5 @@
 import LenaModel.Model.C03
+import LenaModel.Model.C03Spec
 import LenaModel.Lemmas.C03
 /-! # C03 — property theorems: `Split.run` follows its documented block/branch schedule
 
@@ -227,11 +228,6 @@ theorem source_first_block (b : Branch σ α) (hk : b.kind = .source) (blk : Lis
 
 /-! ### a plain Sequence -/
 
-/-- `run` on each block in turn (the object keeps its state between blocks) -/
-def seqTrace (i : Nat) (ops : Ops σ α) : σ → List (List α) → List (Ev α)
-  | _, [] => []
-  | s, blk :: rest => .run i blk :: outs i (ops.run s blk).1 ++ seqTrace i ops (ops.run s blk).2 rest
-
 theorem traceF_sequence (bl : List (List α)) :
     ∀ (b : Branch σ α), b.kind = .sequence → traceF false (some b) bl = seqTrace b.id b.ops b.st bl := by
   induction bl with
@@ -271,11 +267,6 @@ theorem fillBuf_append (i : Nat) (ops : Ops σ α) (ys : List α) :
       rw [List.cons_append, fillBuf_cons_ok i ops s s' x _ hf, fillBuf_cons_ok i ops s s' x _ hf, ih s']
       split <;> simp_all
 
-/-- fill with every value of the flow until `LenaStopFill`, then `compute()` once -/
-def fcTrace (b : Branch σ α) (xs : List α) : List (Ev α) :=
-  (fillBuf b.id b.ops b.st xs).1 ++
-    .compute b.id :: outs b.id (b.ops.compute (fillBuf b.id b.ops b.st xs).2.1).1
-
 theorem traceF_fillCompute (fwe : Bool) (bl : List (List α)) :
     ∀ (b : Branch σ α), b.kind = .fillCompute → traceF fwe (some b) bl = fcTrace b bl.flatten := by
   induction bl with
@@ -301,15 +292,6 @@ theorem branchTrace_fillCompute (b : Branch σ α) (hk : b.kind = .fillCompute) 
 
 /-! ### a fill/request branch -/
 
-/-- block by block: fill until `LenaStopFill`, then `request()`; after a stop nothing more -/
-def frTrace (i : Nat) (ops : Ops σ α) : σ → List (List α) → List (Ev α)
-  | _, [] => []
-  | s, blk :: rest =>
-    (fillBuf i ops s blk).1 ++
-      .request i :: outs i (ops.request (fillBuf i ops s blk).2.1).1 ++
-        (if (fillBuf i ops s blk).2.2 then []
-         else frTrace i ops (ops.request (fillBuf i ops s blk).2.1).2 rest)
-
 theorem traceF_fillRequest (bl : List (List α)) :
     ∀ (b : Branch σ α), b.kind = .fillRequest → traceF false (some b) bl = frTrace b.id b.ops b.st bl := by
   induction bl with
@@ -334,12 +316,20 @@ theorem branchTrace_fillRequest (b : Branch σ α) (hk : b.kind = .fillRequest) 
   | nil => simp [traceF_nil, finalO, finalOne, hk]
   | cons blk rest => simpa using traceF_fillRequest (blk :: rest) b hk
 
-/-! ## 4. LenaStopFill: finalised once, then dropped -/
+/-- the four closed forms together (`closedForm` is what the driver executes) -/
+theorem branchTrace_closedForm (b : Branch σ α) (bl : List (List α)) : branchTrace b bl = closedForm b bl := by
+  unfold closedForm
+  cases hk : b.kind with
+  | source => exact branchTrace_source b hk bl
+  | fillCompute => exact branchTrace_fillCompute b hk bl
+  | fillRequest =>
+    rw [branchTrace_fillRequest b hk bl]
+    cases bl <;> simp
+  | sequence =>
+    rw [branchTrace_sequence b hk bl]
+    cases bl <;> simp
 
-/-- a `fill` that raised `LenaStopFill` -/
-def Ev.isStop : Ev α → Bool
-  | .fill _ _ true => true
-  | _ => false
+/-! ## 4. LenaStopFill: finalised once, then dropped -/
 
 /-- no `LenaStopFill` in this part of the trace -/
 def NoStop (l : List (Ev α)) : Prop := ∀ e ∈ l, e.isStop = false
@@ -433,12 +423,6 @@ theorem frTrace_stop (i : Nat) (ops : Ops σ α) (bl : List (List α)) :
         List.nil_append] at h
       exact ⟨_, stop_split_unique ha (noStop_cons rfl (noStop_outs _ _)) he h⟩
 
-/-- the finalising call of a fill/compute or fill/request branch -/
-def finaliser (b : Branch σ α) : Ev α :=
-  match b.kind with
-  | .fillCompute => .compute b.id
-  | _ => .request b.id
-
 /-- *"a branch that signals LenaStopFill is finalised and dropped"*: whatever happened before,
 after the `fill` that raised `LenaStopFill` the branch receives exactly one more call — its
 `compute()` (fill/compute) or `request()` (fill/request) — whose results are yielded, and then
@@ -478,22 +462,6 @@ theorem stopfill_dropped (s : Split σ α) (hv : s.Valid) (hnd : (s.branches.map
   exact stopfill_dropped_life b hk _ pre post _ rfl h
 
 /-! ## 5. the empty flow -/
-
-/-- the one call a branch receives when the flow is empty -/
-def invocationOf (b : Branch σ α) : Ev α :=
-  match b.kind with
-  | .source => .call b.id
-  | .fillCompute => .compute b.id
-  | .fillRequest => .request b.id
-  | .sequence => .run b.id []
-
-/-- … and what it yields -/
-def resultOf (b : Branch σ α) : List α :=
-  match b.kind with
-  | .source => (b.ops.call b.st).1
-  | .fillCompute => (b.ops.compute b.st).1
-  | .fillRequest => (b.ops.request b.st).1
-  | .sequence => (b.ops.run b.st []).1
 
 /-- *"If the flow was empty, each call, compute, request or run is called nevertheless"*:
 on an empty flow the trace is, branch by branch in branch order, exactly one invocation
@@ -721,10 +689,6 @@ theorem fillBuf_snd_id (i j : Nat) (ops : Ops σ α) :
     cases st with
     | true => rw [fillBuf_cons_stop i ops s s' x _ hf, fillBuf_cons_stop j ops s s' x _ hf]
     | false => rw [fillBuf_cons_ok i ops s s' x _ hf, fillBuf_cons_ok j ops s s' x _ hf]; exact ih s'
-
-/-- the object after it has been filled with `xs` -/
-def filled (b : Branch σ α) (xs : List α) : Branch σ α :=
-  { b with st := (fillBuf b.id b.ops b.st xs).2.1 }
 
 /-- branch `b` accepts every value of `xs` (no `LenaStopFill`) -/
 def Accepts (b : Branch σ α) (xs : List α) : Prop := (fillBuf b.id b.ops b.st xs).2.2 = false
@@ -1007,14 +971,6 @@ theorem common_type_fill_request (s : Split σ α) (hv : s.Valid)
     simp [outputs]
 
 /-! ## 8. Zip: tuples of the i-th results, up to the shortest -/
-
-/-- the `i`-th results of all sequences, if every one of them has an `i`-th result -/
-def colAt (i : Nat) : List (List α) → Option (List α)
-  | [] => some []
-  | r :: rest =>
-    match r[i]?, colAt i rest with
-    | some v, some vs => some (v :: vs)
-    | _, _ => none
 
 /-- `colAt` is defined exactly up to the shortest result list -/
 theorem colAt_eq_none_iff (i : Nat) (rs : List (List α)) :
